@@ -107,7 +107,7 @@ def concretise(src, seed, ops, modes):
     h.env.reset()
     acts = []
     for op in ops:
-        if op[0] == "o":
+        if op[0] in ("o", "b"):
             continue
         act = h.choose(op)
         i = h.real_index[act.key()]
